@@ -834,4 +834,20 @@ theorem pairPrior_of_repeated (f : Trio → ℚ) (P : Ped) (s : PedState) (p q c
   unfold pairPrior
   rw [(hL.map _).prod_eq]; simp
 
+/-! ### one iteration of the pedigree sampler -/
+
+/-- one iteration of `mcmc_sampler`: a compound step (the individuals in a shuffled order; the update of an individual is
+    itself a shuffled pass over its allele copies, `call_compound_step_invariant`) followed by the exchange move of every
+    parental pair, in the order of the pairs.  If the update of each individual and the exchange of each pair leave `π`
+    invariant, so does the iteration, and so does any number of iterations. -/
+theorem ped_iteration_invariant {S : Type} [Fintype S] [DecidableEq S] (π : S → ℝ) (N : ℕ)
+    (Kind : Fin N → S → S → ℝ) (hind : ∀ i, C01.Invariant π (Kind i))
+    {ι : Type} (Kpair : ι → S → S → ℝ) (hpair : ∀ j, C01.Invariant π (Kpair j)) (pairs : List ι) (nSteps : ℕ) :
+    C01.Invariant π (Compose.sweepOf (fun _ : Unit =>
+      C01.kcomp (fun s s' => ∑ σ : Equiv.Perm (Fin N),
+          (1 / (N.factorial : ℝ)) * Compose.sweepOf Kind ((List.finRange N).map σ) s s')
+        (Compose.sweepOf Kpair pairs)) (List.replicate nSteps ())) :=
+  Compose.invariant_iterate π _
+    (C01.invariant_comp π _ _ (Compose.compound_step_invariant π N Kind hind) (Compose.invariant_sweepOf π Kpair hpair pairs)) nSteps
+
 end MCHap.C18
